@@ -145,7 +145,8 @@ class HcSurface(core.Surface):
 
 REFV, SECRET, HC = RefValueSurface(), SecretSurface(), HcSurface()
 E2E = tplgen.E2ESurface("C04_precedence (through CFModel.resolve)")
-SURFACES = {s.name: s for s in (REFV, SECRET, HC, E2E)}
+SEQ = tplgen.SequenceE2ESurface("C04_precedence (bindings are a function of the template and THIS call's extra_params: no hypothesis on earlier calls)")
+SURFACES = {s.name: s for s in (REFV, SECRET, HC, E2E, SEQ)}
 
 TYPES = ["String", "Number", "List<Number>", "CommaDelimitedList", "AWS::SSM::Parameter::Value<String>"]
 DEFAULTS = ["<absent>", "", 0, "a,b", 5, "x", True, 1.5, "1,2,3"]
@@ -253,3 +254,9 @@ def cases(rng, tier, shard, nshards):
         yield HC, gen_hc_case(rng)
         yield SECRET, gen_secret_case(rng)
         yield E2E, tplgen.gen_template(rng)
+        if k % 2 == 0:
+            yield SEQ, tplgen.gen_sensitive_sequence(rng)
+        elif k % 4 == 1:
+            x = tplgen.gen_template(rng)
+            e2 = tplgen.vary_extra(rng, x)
+            yield SEQ, {"template": x["template"], "extras": [x["extra"], e2, {}, x["extra"]][: rng.choice([2, 3, 4])], "fresh_models": rng.random() < 0.5}
